@@ -600,3 +600,142 @@ Proof.
   rewrite (src_dict_init tb ia df rec fimm ib' nm k2 ps2 h2 S' P2).
   rewrite (map_kidsR_unlabel rec _ _ _ _ MK). reflexivity.
 Qed.
+
+(* ------------------------------------------------------------------ the hand model's deepcopy branch *)
+
+Lemma ro_map_kidsR rec g :
+  (forall h c, ro (rec h c) = g h c) ->
+  forall kids h, ro (map_kidsR rec h kids) = map_kids g h kids.
+Proof.
+  intro H. induction kids as [|[k c] t IH]; intro h; [reflexivity |].
+  cbn [map_kidsR map_kids]. rewrite <- H. destruct (rec h c) as [[h1 c1]|e]; [| reflexivity].
+  cbn [ro]. rewrite <- IH. destruct (map_kidsR rec h1 t) as [[h2 t2]|e]; reflexivity.
+Qed.
+
+Lemma rebind_nil ib : rebind [] ib = inst_of ib.
+Proof. unfold rebind. destruct (id_of ib); reflexivity. Qed.
+
+(* The wrappers' __deepcopy__ of the CURRENT source, closed into copy.deepcopy, IS the wrapper branch of the hand
+   model's CopyHeap.dc under the policy "items: Deep" -- for every heap, every wrapper not bound to an immutable
+   owner, and every deepcopy function [rec] that agrees with dc one unit of fuel below.  (This is the induction
+   step of `Src_deepcopy = dc` at the wrapper kinds.)  Replacing deepcopy(v) by v in a wrapper's __deepcopy__,
+   or handing the live list to the new wrapper, breaks it. *)
+Theorem src_wrapper_deepcopy_is_dc pol f tb ia df rec h l o :
+  (forall l', simm (wb_fimm (tb l')) (wb_inst (tb l')) = false) ->
+  defaults_ok (env_of (fun l => Some (tb l)) ia df) = true ->
+  get h l = Some o -> is_wrapper (o_kind o) = true -> labels_emptyb (o_kids o) = true ->
+  (o_kind o = KWDict -> exists ps, kid_pairs (o_kids o) = Some ps) ->
+  cp_wlist pol = Deep -> cp_wdeque pol = Deep -> cp_wdict pol = Deep ->
+  (forall h c, ro (rec h c) = dc pol f h c) ->
+  ro (Src_wrapper_deepcopy (env_of (fun l => Some (tb l)) ia df) (AMemo []) rec l h) = dc pol (S f) h (CRef l).
+Proof.
+  intros NI D G W L DP PL PQ PD H.
+  assert (Spec : forall k, o_kind o = k ->
+            ro (deepcopy_wrapper_spec k rec false false h (o_kids o)) =
+            fresh_obj k (map_kids (by_policy (dc pol f) Deep) h (o_kids o))).
+  { intros k _. unfold deepcopy_wrapper_spec. cbn [opt_copy lift_kids]. rewrite (unlabel_id _ L).
+    rewrite <- (ro_map_kidsR rec (by_policy (dc pol f) Deep)) by (intros; apply H).
+    destruct (map_kidsR rec h (o_kids o)) as [[h2 k2]|e] eqn:MK; [| reflexivity].
+    cbn [lift_kids ro fresh_obj]. rewrite <- (unlabel_id _ L) in MK. rewrite (map_kidsR_unlabel rec _ _ _ _ MK). reflexivity. }
+  unfold Src_wrapper_deepcopy. unfold mbind at 1. unfold a_as_self. rewrite G, W. cbn [e_wattrs env_of].
+  unfold mbind at 1. unfold kind_of at 1. rewrite G.
+  change (AObj ((body_key, AV (CRef l)) :: wattrs (fdesc (wb_fimm (tb l))) (inst_of (wb_inst (tb l))) (wb_name (tb l))))
+    with (wview (AV (CRef l)) (wb_fimm (tb l)) (wb_inst (tb l)) (wb_name (tb l))).
+  cbn [dc]. rewrite G.
+  destruct (o_kind o) eqn:K; try discriminate W.
+  - rewrite (src_list_deepcopy _ rec _ _ _ l h o [] (wb_inst (tb l)) G K (rebind_nil _)).
+    rewrite (NI l). rewrite PL. apply Spec. reflexivity.
+  - rewrite (src_deque_deepcopy _ rec _ _ _ l h o [] (wb_inst (tb l)) D (NI l) G K (rebind_nil _)).
+    rewrite (NI l). rewrite PQ. apply Spec. reflexivity.
+  - destruct (DP eq_refl) as [ps P].
+    rewrite (src_dict_deepcopy tb ia df rec _ _ _ l h o ps [] (wb_inst (tb l)) (NI l) (NI l) G K P (rebind_nil _)).
+    rewrite PD. apply Spec. reflexivity.
+Qed.
+
+(* at the policy GENERATED from the same source by copy_sites.py (Gen/CopySites.v) *)
+Theorem src_wrapper_deepcopy_is_dc_today f tb ia df rec h l o :
+  (forall l', simm (wb_fimm (tb l')) (wb_inst (tb l')) = false) ->
+  defaults_ok (env_of (fun l => Some (tb l)) ia df) = true ->
+  get h l = Some o -> is_wrapper (o_kind o) = true -> labels_emptyb (o_kids o) = true ->
+  (o_kind o = KWDict -> exists ps, kid_pairs (o_kids o) = Some ps) ->
+  (forall h c, ro (rec h c) = dc copy_sites f h c) ->
+  ro (Src_wrapper_deepcopy (env_of (fun l => Some (tb l)) ia df) (AMemo []) rec l h) = dc copy_sites (S f) h (CRef l).
+Proof.
+  intros NI D G W L DP H.
+  exact (src_wrapper_deepcopy_is_dc copy_sites f tb ia df rec h l o NI D G W L DP eq_refl eq_refl eq_refl H).
+Qed.
+
+(* ------------------------------------------------------------------ hand-out: copy() and the pickled state *)
+
+(* copy() of a list wrapper not bound immutable, handed to the caller: a NEW object (location length h) holding
+   the items -- the hand model's one-level copy (CopyHeap.alloc), never the live wrapper l *)
+Corollary src_list_copy_fresh E rec fimm ib nm l h o :
+  simm fimm ib = false -> get h l = Some o -> o_kind o = KWList ->
+  (r <~ Src_ListStruct_copy E rec (wview (AV (CRef l)) fimm ib nm) ;; a_to_child r) h =
+  Ok (alloc h {| o_kind := KList; o_kids := o_kids o |}).
+Proof.
+  intros S G K. unfold mbind at 1. rewrite (src_list_copy E rec fimm ib nm l h o G K). rewrite S. reflexivity.
+Qed.
+
+(* __getstate__: the pickled values are self[:] -- a new list, not the wrapper *)
+Theorem src_list_getstate E rec fimm ib nm l h o :
+  get h l = Some o -> o_kind o = KWList ->
+  Src_ListStruct_getstate E rec (wview (AV (CRef l)) fimm ib nm) h =
+  lift_kids (opt_copy (simm fimm ib) rec h (o_kids o)) (fun h1 ks =>
+    Ok (h1, ADict [(s2p "the_instance", inst_of ib); (s2p "the_array", fdesc fimm); (s2p "the_name", nm);
+                   (s2p "the_values", ATmp KList ks)])).
+Proof.
+  intros G K. unfold Src_ListStruct_getstate. mstep.
+  rewrite getattr_instance. mstep. rewrite getattr_fielddef. mstep. rewrite getattr_name. mstep.
+  rewrite (src_list_slice E rec fimm ib nm l h o G K).
+  destruct (opt_copy (simm fimm ib) rec h (o_kids o)) as [[h1 ks]|e]; reflexivity.
+Qed.
+
+(* __setstate__ on a new object: its body holds the pickled values (a one-level copy of them) *)
+Theorem src_list_setstate E rec fimm ib nm ks h :
+  (s <~ Src_ListStruct_setstate E rec (AObj [])
+          (ADict [(s2p "the_instance", inst_of ib); (s2p "the_array", fdesc fimm); (s2p "the_name", nm);
+                  (s2p "the_values", ATmp KList ks)]) ;; r <~ a_finish_new KWList s ;; a_to_child r) h =
+  Ok (alloc h {| o_kind := KWList; o_kids := unlabel ks |}).
+Proof.
+  unfold Src_ListStruct_setstate. mstep. cbn [a_dict_subscript alist_get pystr_eqb]. 
+  unfold a_super_init. cbn -[run_thunks as_kids unlabel alloc].
+  unfold mbind. rewrite run_plain_thunks. rewrite as_kids_plain. reflexivity.
+Qed.
+
+(* ------------------------------------------------------------------ the side conditions are satisfiable *)
+
+Definition ex_heap : heap :=
+  [ {| o_kind := KList; o_kids := [(([] : pystr), CAtom (PNum (NInt 1)))] |};
+    {| o_kind := KWList; o_kids := [(([] : pystr), CRef 0)] |};
+    {| o_kind := KWDict; o_kids := [(([] : pystr), CAtom (PStr (s2p "k"))); (([] : pystr), CRef 1)] |} ].
+Definition ex_tb (l : loc) : wbind := {| wb_fimm := false; wb_inst := Some (Some 7, false, false); wb_name := astr (s2p "f") |}.
+Definition ex_df (n : pystr) : option pyval := Some (PBool true).
+
+Example side_conditions_satisfiable :
+  (forall l', simm (wb_fimm (ex_tb l')) (wb_inst (ex_tb l')) = false) /\
+  defaults_ok (env_of (fun l => Some (ex_tb l)) (fun _ _ => None) ex_df) = true /\
+  labels_emptyb (o_kids (nth 2 ex_heap {| o_kind := KList; o_kids := [] |})) = true /\
+  kid_pairs (o_kids (nth 2 ex_heap {| o_kind := KList; o_kids := [] |})) = Some [(CAtom (PStr (s2p "k")), CRef 1)] /\
+  (* the generated deepcopy, closed with fuel, on the nested example: equal to the hand model's dc *)
+  ro (Src_deepcopy (env_of (fun l => Some (ex_tb l)) (fun _ _ => None) ex_df) (AMemo [])
+        (fun _ _ _ _ => Raise Unmodelled) 5 ex_heap (CRef 2)) = dc copy_sites 5 ex_heap (CRef 2) /\
+  (* an immutable binding: three passes over the items instead of one (more garbage, same sharing) *)
+  simm true None = true.
+Proof. repeat split; vm_compute; reflexivity. Qed.
+
+Print Assumptions src_is_immutable.
+Print Assumptions src_defcopy_tmp.
+Print Assumptions src_defcopy_child.
+Print Assumptions src_list_copy.
+Print Assumptions src_list_copy_fresh.
+Print Assumptions src_list_deepcopy.
+Print Assumptions src_deque_copy.
+Print Assumptions src_deque_deepcopy.
+Print Assumptions src_dict_copy.
+Print Assumptions src_dict_deepcopy.
+Print Assumptions src_list_getstate.
+Print Assumptions src_list_setstate.
+Print Assumptions src_wrapper_deepcopy_is_dc.
+Print Assumptions src_wrapper_deepcopy_is_dc_today.
+Print Assumptions side_conditions_satisfiable.
